@@ -36,6 +36,8 @@ FRACS = [0.5, 1.5, -2.25, 3.14159, 0.001, 2.675]
 STRS = ['', 'a', 'abc', 'a,b', 'C:\\', 'dir\\', '\\', 'x"y', '10', '3.0', '-7', 'ff', 'zz', '2020-01-02', '2020-01-02T03:04:05Z',
         '{"a":1,"b":[2.0,"x\\\\"]}', '[1,2.0,"x"]', 'a+', '(b)(c)?', 'struct S\n  int a\n', 'S', ' pad ', 'bob', 'ann', 'a\nb',
         'a > 1', 'a + c', 'b', 'c', 'i', 'g', 'kb', 'été']
+# strings that stress the text forms of containers (JSON escapes, number-like text): used inside arrays / objects
+HOSTILE = ['C:\\', 'dir\\', '\\', 'a\\\\', 'x"y', '"', 'q\\"', 'tab\t', '}', ']', ',', '1.0', '.0', '5.0,', 'a\nb']
 KEYS = ['a', 'b', 'c', 'path', 'size', 'unit']
 
 
@@ -67,7 +69,7 @@ def g_scalar(r, depth=0):
     if c < 0.40:
         return g_num(r, big=depth > 0)
     if c < 0.75:
-        return ['s', r.choice(STRS)]
+        return ['s', r.choice(HOSTILE if depth > 0 and r.random() < 0.4 else STRS)]
     if c < 0.83:
         return ['z']
     if c < 0.90:
@@ -298,7 +300,7 @@ def run(tier):
     table, functions = load_table()
     r = core.rng('c12')
     thorough = tier == 'thorough'
-    per_fn = 140 if not thorough else 1500
+    per_fn = 220 if not thorough else 2000
     cases = []
     cdir = os.path.join(core.VERIF, 'corpus', PID)
     if os.path.isdir(cdir):
